@@ -54,6 +54,20 @@ pub fn replay(path: &str) -> i32 {
         Some("e1") => {
             let prop = r["property"].as_str().unwrap_or("");
             let label = r["variant"].as_str().unwrap_or("");
+            if prop == "C06" {
+                let hist: Vec<crate::e1::HistStep> = serde_json::from_value(r["history"].clone()).unwrap_or_default();
+                let spec = crate::c06::hostile_spec(&rng::menu(4, 3));
+                return match crate::e1::replay_verbose(&spec, &hist) {
+                    Some(v) => {
+                        println!("REPRODUCED [{}] {}", v.signature, v.what);
+                        1
+                    }
+                    None => {
+                        println!("not reproduced");
+                        0
+                    }
+                };
+            }
             if prop == "C17" {
                 let hist: Vec<crate::e1::HistStep> = serde_json::from_value(r["history"].clone()).unwrap_or_default();
                 let tier = r["tier"].as_str().unwrap_or("quick");
